@@ -34,6 +34,9 @@ pub struct Config {
     pub exact: bool,
     /// spare sequence rows of a hand-built striped sequence (StripedSequence::new); 0 = as striped by the library
     pub spare: usize,
+    /// Some(n): the striped buffer first received a sequence of n symbols, then this sequence through `stripe_into`
+    /// on the same object (ignored when `spare` > 0); None = freshly striped
+    pub prev_len: Option<usize>,
 }
 
 impl Config {
@@ -50,6 +53,7 @@ impl Config {
             "pre_wrap": self.pre_wrap,
             "exact_capacity_clone": self.exact,
             "spare_rows": self.spare,
+            "prev_len": self.prev_len,
         })
     }
     pub fn from_json(v: &Value) -> Config {
@@ -67,6 +71,7 @@ impl Config {
             pre_wrap: v["pre_wrap"].as_u64().map(|x| x as usize),
             exact: v["exact_capacity_clone"].as_bool().unwrap_or(false),
             spare: v["spare_rows"].as_u64().unwrap_or(0) as usize,
+            prev_len: v["prev_len"].as_u64().map(|x| x as usize),
         }
     }
 }
@@ -148,7 +153,17 @@ pub fn run_scanner(cfg: &Config, after: &After) -> Result<RunOut, String> {
         with_arm(cfg.arm, || {
             let pssm = model::scoring::<Dna>(&cfg.matrix);
             let syms = model::to_symbols::<Dna>(&cfg.seq);
-            let mut striped: StripedSequence<Dna, U32> = cfgs::respread(Pipeline::<Dna, Dispatch>::dispatch().stripe(&syms), &syms, cfg.spare);
+            let mut striped: StripedSequence<Dna, U32> = match cfg.prev_len {
+                Some(n) if cfg.spare == 0 => {
+                    let prev: Vec<u8> = (0..n).map(|i| ((i * 7 + 1) % 4) as u8).collect();
+                    let mut st: StripedSequence<Dna, U32> = Pipeline::<Dna, Dispatch>::dispatch().stripe(&model::to_symbols::<Dna>(&prev));
+                    // the earlier use of the buffer: configured for this motif, as a scan would have left it
+                    st.configure(&pssm);
+                    Pipeline::<Dna, Dispatch>::dispatch().stripe_into(&syms, &mut st);
+                    st
+                }
+                _ => cfgs::respread(Pipeline::<Dna, Dispatch>::dispatch().stripe(&syms), &syms, cfg.spare),
+            };
             if let Some(w) = cfg.pre_wrap {
                 striped.configure_wrap(w);
             }
@@ -342,6 +357,18 @@ pub fn judge_rethreshold(cfg: &Config, or: &Oracle, out: &RunOut, k: usize, t2: 
     };
     for p in 0..valid {
         let row = p % r.max(1);
+        // a position meeting BOTH thresholds is owed whatever the state of its block at the change: either it was
+        // confirmed against t1 and sits in the hit buffer (which a threshold change must not lose - seeded change
+        // C08-v cleared it), or its block is scored later against t2
+        if !seen[p] && or.must(p, t1.max(t2)) == Some(true) {
+            return Err((
+                "missed hit meeting both thresholds".into(),
+                format!(
+                    "threshold {} -> {} after {} hit(s): position {} (row {}) scores {} >= both thresholds but was never yielded (L={}, M={}, block={})",
+                    t1, t2, k, p, row, or.exact[p].0, l, or.m, cfg.block
+                ),
+            ));
+        }
         if row < first_pending_row {
             continue;
         }
@@ -674,7 +701,7 @@ fn sweep(mode: Mode, ctx: &mut Ctx, rep: &mut Report) {
                         for si in 0..5u64.pow(l as u32) {
                             let seq = model::nth_word(si, l, 5);
                             let ts = threshold_menu(&matrix, &seq, if ctx.quick() { 4 } else { 8 });
-                            let probe = Config { seq: seq.clone(), matrix: matrix.clone(), threshold: 0.0, block: 1, arm: Forced::Generic, origin: String::new(), pre_wrap: None, exact: false, spare: 0 };
+                            let probe = Config { seq: seq.clone(), matrix: matrix.clone(), threshold: 0.0, block: 1, arm: Forced::Generic, origin: String::new(), pre_wrap: None, exact: false, spare: 0, prev_len: None };
                             let or = Oracle::new(&probe);
                             for &t in &ts {
                                 for &block in &[1usize, 256] {
@@ -689,6 +716,7 @@ fn sweep(mode: Mode, ctx: &mut Ctx, rep: &mut Report) {
                                             pre_wrap: None,
                                             exact: false,
                                             spare: 0,
+                                            prev_len: None,
                                         };
                                         sink.config(&cfg, &or);
                                         if l == 4 && si == 200 && mi == 1 && block == 1 && arm == Forced::Avx2 {
@@ -713,7 +741,7 @@ fn sweep(mode: Mode, ctx: &mut Ctx, rep: &mut Report) {
         sink.rep.space(
             "shapes",
             "every length L in 0..=170 (R<=6 sequence rows, so with block sizes 1..8 every relative position of a block boundary w.r.t. the sequence rows and the M-1 look-ahead rows occurs) plus L = 8192 +- {0,32,64} (+-1) \
-             x 3 contents (de Bruijn cycle, constant, period-5 with wildcard) x matrix menu (M in 1..=4, 14 matrices; thorough 40) x wildcard column {-inf, finite below every entry, finite row mean, finite ABOVE every entry of its row} x striped sequence {fresh, previously configured for a shorter motif, previously configured for a longer motif} x thresholds (<= 4 (thorough 8) evenly ranked attainable scores, their midpoints, + extremes) \
+             x 3 contents (de Bruijn cycle, constant, period-5 with wildcard) x matrix menu (M in 1..=4, 14 matrices; thorough 40) x wildcard column {-inf, finite below every entry, finite row mean, finite ABOVE every entry of its row} x striped sequence {fresh, previously configured for a shorter motif, previously configured for a longer motif, a buffer that held another (longer or shorter) sequence and was refilled through stripe_into under the arm (always for L<3)} x thresholds (<= 4 (thorough 8) evenly ranked attainable scores, their midpoints, + extremes) \
              x block sizes {1,2,3,4,5,7,8,256} x 3 dispatcher arms",
         );
         let mut mats: Vec<(usize, u64)> = vec![(1, 0), (1, 3), (2, 7), (2, 8), (2, 20), (3, 44), (3, 100), (3, 215), (4, 0), (4, 333), (4, 800), (4, 1295), (2, 28), (3, 86), (2, 55), (3, 6 * 64 + 7 * 8 + 1), (4, 6 * 512 + 7 * 64 + 8 + 5)];
@@ -747,7 +775,7 @@ fn sweep(mode: Mode, ctx: &mut Ctx, rep: &mut Report) {
                         }
                         let matrix = matrix_from_digits(&model::nth_word(mi, m, nrows), wild);
                         let ts = threshold_menu(&matrix, &seq, if big { 3 } else if ctx.quick() { 4 } else { 8 });
-                        let probe = Config { seq: seq.clone(), matrix: matrix.clone(), threshold: 0.0, block: 1, arm: Forced::Generic, origin: String::new(), pre_wrap: None, exact: false, spare: 0 };
+                        let probe = Config { seq: seq.clone(), matrix: matrix.clone(), threshold: 0.0, block: 1, arm: Forced::Generic, origin: String::new(), pre_wrap: None, exact: false, spare: 0, prev_len: None };
                         let or = Oracle::new(&probe);
                         let blocks: Vec<usize> = if big { vec![256, 255, 7, 300] } else { BLOCKS.to_vec() };
                         for &t in &ts {
@@ -773,6 +801,9 @@ fn sweep(mode: Mode, ctx: &mut Ctx, rep: &mut Report) {
                                         exact: (block + m) % 3 == 0,
                                         // every fifth combination scans a hand-built sequence with 2 spare sequence rows
                                         spare: if (block + 2 * m + l) % 5 == 0 { 2 } else { 0 },
+                                        // tiny sequences always, and every fourth other combination: the striped buffer held ANOTHER sequence before
+                                        // and was refilled with stripe_into by the arm under test (seeded change C02-v: stale contents after an empty sequence)
+                                        prev_len: if l < 3 || (block + m + l) % 4 == 1 { Some(if l < 64 { 64 + m } else { 10 }) } else { None },
                                     };
                                     sink.config(&cfg, &or);
                                     if l == 70 && pat == 0 && mm == 5 && block == 2 && arm == Forced::Sse2 {
@@ -795,7 +826,7 @@ fn sweep(mode: Mode, ctx: &mut Ctx, rep: &mut Report) {
         sink.rep.space(
             "rethreshold",
             "histories threshold(t1) . next^k . threshold(t2) . next* on ONE scanner: lengths {5,33,70,100,200} x 2 contents x matrices (M in 1..=3, 12 from the menu x wildcard {-inf, row mean}) x block sizes {1,2,3} x ordered pairs (t1,t2) of <= 5 attainable thresholds x k in 0..=6 x 3 dispatcher arms; \
-             oracle: nothing yielded twice or below min(t1,t2); every position of a block not yet scored when the threshold changed that meets t2 is yielded, none of those below t2",
+             oracle: nothing yielded twice or below min(t1,t2); every position of a block not yet scored when the threshold changed that meets t2 is yielded, none of those below t2; every position meeting max(t1,t2) is yielded whatever the state of its block at the change (buffered hits survive a threshold change)",
         );
         let mats: Vec<(usize, u64)> = vec![(1, 0), (1, 3), (1, 6), (2, 1), (2, 14), (2, 55), (3, 9), (3, 100), (3, 511), (2, 62), (1, 5), (3, 300)];
         for &l in &[5usize, 33, 70, 100, 200] {
@@ -810,7 +841,7 @@ fn sweep(mode: Mode, ctx: &mut Ctx, rep: &mut Report) {
                         }
                         let matrix = matrix_from_digits(&model::nth_word(mi, m, nrows), wild);
                         let ts = threshold_menu(&matrix, &seq, 3);
-                        let probe = Config { seq: seq.clone(), matrix: matrix.clone(), threshold: 0.0, block: 1, arm: Forced::Generic, origin: String::new(), pre_wrap: None, exact: false, spare: 0 };
+                        let probe = Config { seq: seq.clone(), matrix: matrix.clone(), threshold: 0.0, block: 1, arm: Forced::Generic, origin: String::new(), pre_wrap: None, exact: false, spare: 0, prev_len: None };
                         let or = Oracle::new(&probe);
                         for &t1 in ts.iter().take(5) {
                             for &t2 in ts.iter().take(5) {
@@ -830,6 +861,7 @@ fn sweep(mode: Mode, ctx: &mut Ctx, rep: &mut Report) {
                                                 pre_wrap: None,
                                                 exact: false,
                                                 spare: 0,
+                                                prev_len: None,
                                             };
                                             sink.rep.eval_distinct(!or.exact.is_empty());
                                             sink.states += 1;
@@ -879,7 +911,7 @@ fn sweep(mode: Mode, ctx: &mut Ctx, rep: &mut Report) {
                         }
                         let matrix = matrix_from_digits(&model::nth_word(mi, m, nrows), wild);
                         let ts = threshold_menu(&matrix, &seq, 3);
-                        let probe = Config { seq: seq.clone(), matrix: matrix.clone(), threshold: 0.0, block: 1, arm: Forced::Generic, origin: String::new(), pre_wrap: None, exact: false, spare: 0 };
+                        let probe = Config { seq: seq.clone(), matrix: matrix.clone(), threshold: 0.0, block: 1, arm: Forced::Generic, origin: String::new(), pre_wrap: None, exact: false, spare: 0, prev_len: None };
                         let or = Oracle::new(&probe);
                         for &t1 in ts.iter().take(5) {
                             for &t2 in ts.iter().take(6) {
@@ -889,7 +921,7 @@ fn sweep(mode: Mode, ctx: &mut Ctx, rep: &mut Report) {
                                 for &block in &[1usize, 2, 3, 256] {
                                     for arm in cfgs::FORCED {
                                         for k in 0..=6usize {
-                                            let cfg = Config { seq: seq.clone(), matrix: matrix.clone(), threshold: t1, block, arm, origin: format!("rethreshold_max L={} content={} M={} matrix#{} wild={}", l, pat, m, mi, wild), pre_wrap: None, exact: false, spare: 0 };
+                                            let cfg = Config { seq: seq.clone(), matrix: matrix.clone(), threshold: t1, block, arm, origin: format!("rethreshold_max L={} content={} M={} matrix#{} wild={}", l, pat, m, mi, wild), pre_wrap: None, exact: false, spare: 0, prev_len: None };
                                             let cfg2 = Config { threshold: t2, ..cfg.clone() };
                                             sink.rep.eval_distinct(!or.exact.is_empty());
                                             sink.states += 1;
@@ -939,7 +971,7 @@ fn sweep(mode: Mode, ctx: &mut Ctx, rep: &mut Report) {
                         }
                         let matrix = matrix_from_digits(&model::nth_word(mi, m, nrows), wild);
                         let ts = threshold_menu(&matrix, &seq, 3);
-                        let probe = Config { seq: seq.clone(), matrix: matrix.clone(), threshold: 0.0, block: 1, arm: Forced::Generic, origin: String::new(), pre_wrap: None, exact: false, spare: 0 };
+                        let probe = Config { seq: seq.clone(), matrix: matrix.clone(), threshold: 0.0, block: 1, arm: Forced::Generic, origin: String::new(), pre_wrap: None, exact: false, spare: 0, prev_len: None };
                         let or = Oracle::new(&probe);
                         for &t1 in ts.iter().take(3) {
                             for &b1 in &[1usize, 2, 3, 5, 256] {
@@ -959,6 +991,7 @@ fn sweep(mode: Mode, ctx: &mut Ctx, rep: &mut Report) {
                                                 pre_wrap: None,
                                                 exact: false,
                                                 spare: 0,
+                                                prev_len: None,
                                             };
                                             sink.rep.eval_distinct(!or.exact.is_empty());
                                             sink.states += 1;
@@ -1024,12 +1057,12 @@ fn sweep(mode: Mode, ctx: &mut Ctx, rep: &mut Report) {
                             .collect();
                         let seq = content(l, pat);
                         let ts = threshold_menu(&matrix, &seq, 4);
-                        let probe = Config { seq: seq.clone(), matrix: matrix.clone(), threshold: 0.0, block: 1, arm: Forced::Generic, origin: String::new(), pre_wrap: None, exact: false, spare: 0 };
+                        let probe = Config { seq: seq.clone(), matrix: matrix.clone(), threshold: 0.0, block: 1, arm: Forced::Generic, origin: String::new(), pre_wrap: None, exact: false, spare: 0, prev_len: None };
                         let or = Oracle::new(&probe);
                         for &t in &ts {
                             for &block in &[1usize, 256] {
                                 for arm in cfgs::FORCED {
-                                    let cfg = Config { seq: seq.clone(), matrix: matrix.clone(), threshold: t, block, arm, origin: format!("extremes/offset L={} content={} M={} matrix#{}", l, pat, m, mi), pre_wrap: None, exact: false, spare: 0 };
+                                    let cfg = Config { seq: seq.clone(), matrix: matrix.clone(), threshold: t, block, arm, origin: format!("extremes/offset L={} content={} M={} matrix#{}", l, pat, m, mi), pre_wrap: None, exact: false, spare: 0, prev_len: None };
                                     sink.config(&cfg, &or);
                                 }
                             }
@@ -1048,12 +1081,12 @@ fn sweep(mode: Mode, ctx: &mut Ctx, rep: &mut Report) {
                 let matrix = crate::c08::wide_matrix(m, fl);
                 let seq = crate::c08::wide_sequence(&matrix);
                 let ts = threshold_menu(&matrix, &seq, 3);
-                let probe = Config { seq: seq.clone(), matrix: matrix.clone(), threshold: 0.0, block: 1, arm: Forced::Generic, origin: String::new(), pre_wrap: None, exact: false, spare: 0 };
+                let probe = Config { seq: seq.clone(), matrix: matrix.clone(), threshold: 0.0, block: 1, arm: Forced::Generic, origin: String::new(), pre_wrap: None, exact: false, spare: 0, prev_len: None };
                 let or = Oracle::new(&probe);
                 for &t in &ts {
                     for &block in &[1usize, 256] {
                         for arm in cfgs::FORCED {
-                            let cfg = Config { seq: seq.clone(), matrix: matrix.clone(), threshold: t, block, arm, origin: format!("extremes/long-motif M={} flavour={}", m, fl), pre_wrap: None, exact: false, spare: 0 };
+                            let cfg = Config { seq: seq.clone(), matrix: matrix.clone(), threshold: t, block, arm, origin: format!("extremes/long-motif M={} flavour={}", m, fl), pre_wrap: None, exact: false, spare: 0, prev_len: None };
                             sink.config(&cfg, &or);
                         }
                     }
@@ -1095,7 +1128,7 @@ fn sweep(mode: Mode, ctx: &mut Ctx, rep: &mut Report) {
                     r
                 })
                 .collect();
-            let proto = Config { seq, matrix, threshold: 8.0, block: 256, arm: Forced::Avx2, origin: String::new(), pre_wrap: None, exact: false, spare: 0 };
+            let proto = Config { seq, matrix, threshold: 8.0, block: 256, arm: Forced::Avx2, origin: String::new(), pre_wrap: None, exact: false, spare: 0, prev_len: None };
             let or = Oracle::new(&proto);
             for &block in &[256usize, 65535, 65536, 65537, 1 << 20] {
                 for arm in cfgs::FORCED {
